@@ -20,6 +20,15 @@ Sub-checks (names usable with --only):
           e = x or 1 (+) x, x a sum / skew sum (both bracketings) of at most 2 (thorough: 3) monotone
           runs of length 1..10; quick: identity image; thorough: every symmetric image for <= 2 runs,
           identity image for 3 runs.  Observer: find_strategies(b, False) against the reference.
+  abort : injected aborts as an explored environment deviation (bound 1).  History: find_strategies(A);
+          op(X) with an InjectedAbort (BaseException, stands for Ctrl-C or any exception surfacing in
+          the library) raised at the k-th function entry / generator resumption inside
+          permuta/enumeration_strategies/*.py, permuta/permutils/symmetry.py or a direct callee, for
+          EVERY k of the fault-free run; then read-back find_strategies on X, A, X and on A, X, A.  Every
+          completed answer must equal the reference (a call that was cut short must not poison later
+          calls).  Ordered pairs (A, X) of bases with different reference reports; quick: 3 bases,
+          op = find_strategies; thorough: 5 bases, op = find_strategies and each fast strategy's
+          applies().
   slow  : the slow strategy.  find_strategies(b, True) == fast report + slow verdict,
           find_strategies(b, False) == find_strategies(b, True) minus the slow strategies, the slow
           verdict == PinWords.has_finite_simples(b) (the class test), FinitelyManySimplesStrategy(b)
@@ -220,6 +229,136 @@ def block_perms(maxblocks, maxlen, maxblock):
         level = nxt
     out |= {R.direct_sum((0,), x) for x in out if len(x) + 1 <= maxlen}
     return sorted(out, key=lambda x: (len(x), x))
+
+
+# ---- injected aborts (environment deviation, bound 1) --------------------------------------
+
+class InjectedAbort(BaseException):
+    """Stands for Ctrl-C / any exception surfacing inside the library while a call is running."""
+
+
+_WATCH = None
+
+
+def watched_files():
+    """Source files whose frames (and whose direct callees' entries) are injection points."""
+    global _WATCH
+    if _WATCH is None:
+        import sys
+        _lib()
+        _WATCH = frozenset(
+            m.__file__ for n, m in list(sys.modules.items())
+            if (n.startswith("permuta.enumeration_strategies") or n == "permuta.permutils.symmetry")
+            and getattr(m, "__file__", None))
+    return _WATCH
+
+
+class Injector:
+    """Global trace function: counts 'call' events (function entry, generator resumption) of frames
+    of the watched files and of frames called directly from them; raises at the k-th one."""
+
+    def __init__(self, k):
+        self.k, self.n, self.fired = k, 0, False
+        self.watch = watched_files()
+
+    def __call__(self, frame, event, arg):
+        if event != "call":
+            return None
+        if frame.f_code.co_filename not in self.watch:
+            back = frame.f_back
+            if back is None or back.f_code.co_filename not in self.watch:
+                return None
+        self.n += 1
+        if self.n == self.k:
+            self.fired = True
+            raise InjectedAbort("injected at call event %d (%s)" % (self.k, frame.f_code.co_name))
+        return None
+
+
+ABORT_BASES = [F.NEEDED["RuCuCoreStrategy"], F.NEEDED["RdCdCoreStrategy"], ((0, 2, 1),),
+               F.NEEDED["Rd2134CoreStrategy"], F.NEEDED["Ru2143CoreStrategy"]]
+
+
+def _abort_op(op, B):
+    _, classes, find, _, _ = _lib()
+    if op == "find":
+        return lambda: find(list(B), False)
+    return lambda: classes[op](list(B)).applies()
+
+
+def abort_execution(part, warm, basis, op, k, order):
+    """History: find_strategies(warm) | op(basis) with an abort injected at the k-th injection
+    point (k = 0: none) | read-back find_strategies on the two bases in the given order
+    ('XAX' = aborted basis, other, aborted basis; 'AXA' the other way round).  Every completed
+    answer is compared with the reference.  Returns (#injection points passed, fired?)."""
+    import sys
+    Perm, _, find, _, _ = _lib()
+    case = {"kind": "abort", "warm": warm, "basis": basis, "op": op, "k": k, "order": order}
+    A = [Perm(p) for p in warm]
+    X = [Perm(p) for p in basis]
+    expect = {"A": F.expected(warm), "X": F.expected(basis)}
+
+    def observe(which, step):
+        r = _call(lambda: _names(find(list(A if which == "A" else X), False)))
+        exp = expect[which]
+        if r[0] == "exc":
+            part.violation("abort", case, {"step": step, "raised": r})
+            return
+        wrong = [n for n in F.FAST if exp[n] != F.UNDEF and (n in r[1]) != exp[n]]
+        bad = [n for n in r[1] if n not in F.FAST]
+        if wrong or bad:
+            part.violation("abort", case, {"step": step, "basis": warm if which == "A" else basis,
+                                           "reported": r[1], "wrong_membership": wrong + bad,
+                                           "expected": sorted(n for n in F.FAST if exp[n] is True)})
+
+    observe("A", "warm-up")
+    fn = _abort_op(op, X)
+    inj = Injector(k)
+    old, oldhook = sys.gettrace(), sys.unraisablehook
+
+    def hook(u):
+        # an injection point that lies inside the finalisation of a generator: the interpreter
+        # itself discards the exception ("Exception ignored in ..."); nothing to report
+        if not isinstance(u.exc_value, InjectedAbort):
+            oldhook(u)
+
+    sys.unraisablehook = hook
+    sys.settrace(inj)
+    try:
+        fn()
+    except InjectedAbort:
+        inj.fired = "aborted"
+    except Exception as exc:  # noqa
+        sys.settrace(old)
+        part.violation("abort", case, {"step": "call under injection", "raised": repr(exc)[:300]})
+    finally:
+        sys.settrace(old)
+        sys.unraisablehook = oldhook
+    for i, which in enumerate(order):
+        observe(which, "read-back %d (%s)" % (i + 1, "aborted call's basis" if which == "X" else "other basis"))
+    return inj.n, inj.fired
+
+
+def shard_abort(shard):
+    warm, basis, op, order = shard
+    t0 = time.process_time()
+    part = Partial()
+    scratch = Partial()
+    n1, _ = abort_execution(scratch, warm, basis, op, 0, order)
+    n2, _ = abort_execution(part, warm, basis, op, 0, order)     # steady state, fault-free
+    part.add(1, 0)
+    total = max(n1, n2)
+    fired = 0
+    for k in range(1, total + 1):
+        _, f = abort_execution(part, warm, basis, op, k, order)
+        fired += 1 if f == "aborted" else 0
+        part.add(1, 1 if f == "aborted" else 0)
+    part.bump("abort_injection_points", total)
+    part.bump("abort_executions_with_fault", fired)
+    if total:
+        part.sample({"history": ["find_strategies(%s)" % (warm,), "%s(%s) aborted at call event k=1..%d"
+                                 % (op, basis, total), "read-back order " + order]}, cap=1)
+    return part, (total, fired, time.process_time() - t0)
 
 
 def check_stale(part, prev_basis, prev_objs, then_basis):
@@ -494,7 +633,8 @@ def run(ctx, only=None):
                 "orders compared with the restated hypotheses; non-trivial = the reference reports at "
                 "least one fast strategy and rejects at least one for that basis; a slow evaluation "
                 "(basis, slow observers; each once) is non-trivial when the slow verdict differs from "
-                "some fast strategy's verdict")
+                "some fast strategy's verdict; an abort execution (history, k; each once) is non-trivial "
+                "when the injected exception actually cut the call short")
     ctx.assumptions = [
         "reference mc/ref_c19.py restates each hypothesis from its definition; the tables of required "
         "patterns and the shape attached to each corollary are taken from the strategy classes "
@@ -546,6 +686,34 @@ def run(ctx, only=None):
                len(POOLS["blocks"])))
         ctx.section("blocks", bases=len(POOLS["blocks"]), evaluations=ctx.evals - e0,
                     nontrivial=ctx.nontrivial - n0, cpu_s=round(sum(res), 1))
+    if want("abort"):
+        e0, n0 = ctx.evals, ctx.nontrivial
+        nb = 3 if quick else 5
+        ops = ["find"] if quick else ["find", F.INSENC] + F.CORE
+        bases = [canon(b) for b in ABORT_BASES[:nb]]
+        reports = {b: tuple(sorted(k for k, v in F.expected(b).items() if v is True)) for b in bases}
+        shards = [(a, x, op, order) for a in bases for x in bases
+                  if a != x and reports[a] != reports[x]
+                  for op in ops for order in ("XAX", "AXA")]
+        res = ctx.pmap(shard_abort, shards)
+        points = sum(r[0] for r in res)
+        ctx.states += len(shards)
+        ctx.transitions += sum(r[0] + 1 for r in res)
+        ctx.traces += sum(r[0] + 1 for r in res)
+        ctx.bounds["abort"] = {
+            "histories": "find_strategies(A, False); op(X) aborted; read-back find_strategies in the "
+                         "orders X,A,X and A,X,A; %d ordered pairs (A, X) of bases with different "
+                         "reference reports out of %s" % (len({(sh[0], sh[1]) for sh in shards}), bases),
+            "ops": ops,
+            "deviation": "one InjectedAbort (BaseException) at the k-th 'call' event (function entry / "
+                         "generator resumption) of frames of permuta/enumeration_strategies/*.py and "
+                         "permuta/permutils/symmetry.py and of frames called directly from them, for "
+                         "EVERY k up to the number of such events of the fault-free run; deviation bound 1",
+            "injection_points": points,
+        }
+        ctx.section("abort", histories=len(shards), injection_points=points,
+                    aborted_executions=sum(r[1] for r in res), evaluations=ctx.evals - e0,
+                    cpu_s=round(sum(r[2] for r in res), 1))
     if want("slow"):
         e0, n0 = ctx.evals, ctx.nontrivial
         build_simples()
@@ -596,6 +764,8 @@ def replay(ctx, rec):
         check_fast(part, basis, int(case.get("nvar", 4)), bool(case.get("twice", True)))
     elif kind == "report":
         check_report(part, basis)
+    elif kind == "abort":
+        abort_execution(part, canon(case["warm"]), basis, case["op"], int(case["k"]), case["order"])
     elif kind == "stale":
         objs = {}
         check_fast(Partial(), basis, 1, False, objs)
